@@ -202,6 +202,36 @@ def check_structure(core, parser, v, name, node, rng, rec):
             rec.seen('edit_kinds', kind)
         except Exception as e:
             rec.violation('edit-raised:%s:%s' % (kind, type(e).__name__), case, {'exc': repr(e)[:200]}, row=row)
+    # ---- a child name the structure lists twice: the profile makes only the SECOND entry required
+    names_top = [c.name for c in node.children]
+    dups = [c for k, c in enumerate(node.children) if c.kind == 'SEG' and names_top.count(c.name) == 2 and
+            names_top.index(c.name) != k and c.card[0] == 0 and node.children[names_top.index(c.name)].card[0] == 0]
+    if dups:
+        c2 = dups[0]
+        t = thaw(tables.lib(v).MESSAGES[name])
+        seen = 0
+        for c in t[1]:
+            if c[0] == c2.name:
+                seen += 1
+                if seen == 2:
+                    c[2] = [1, c[2][1]]
+        prof = {name: freeze(t)}
+        case = {'version': v, 'structure': name, 'edit': 'require-second-occurrence', 'child': c2.name, 'text': base_text}
+        try:
+            rec.evaluation((v, name, 'require-second-occurrence', c2.name))
+            s0 = parser.parse_message(base_text)
+            if report(s0)[0]:
+                rec.count('instances_not_judgeable_without_profile')
+            else:
+                p0 = parser.parse_message(base_text, message_profile=prof)
+                rec.count('second_occurrence_checks')
+                if not any(c2.name in e and 'Missing' in e for e in report(p0)[0]):
+                    rec.violation('profile-constraint-not-enforced-by-validate:require-second-occurrence', case,
+                                  {'profile_errors': report(p0)[0][:3]}, row=row)
+                else:
+                    rec.seen('edit_kinds', 'require-second-occurrence')
+        except Exception as e:
+            rec.violation('edit-raised:require-second-occurrence:%s' % type(e).__name__, case, {'exc': repr(e)[:200]}, row=row)
     # ---- a repeatable segment inside a group limited to two occurrences
     places = tables.segment_name_places(node)
     gcands = []
@@ -281,7 +311,7 @@ def check_structure(core, parser, v, name, node, rng, rec):
             # place the target line at its structural position by rebuilding with a custom line
             text = instance_text_with_line(v, name, node, c.name, line)
             for path in ('parse', 'traversal', 'add', 'assign-text', 'assign-text-custom-delimiters', 'copy-proxy',
-                         'assign-message-text'):
+                         'assign-message-text', 'assign-bare-segment-name'):
                 rec.evaluation((v, name, 'datatype', r.name, path))
                 if path in ('assign-text', 'assign-text-custom-delimiters', 'copy-proxy'):
                     # a segment assigned as ER7 text (or copied from another message) is a child created by parsing
@@ -304,7 +334,13 @@ def check_structure(core, parser, v, name, node, rng, rec):
                         rec.violation('profile-datatype-not-used:%s' % path, case, {'got': f.datatype}, row=row)
                         break
                     continue
-                if path == 'parse':
+                if path == 'assign-bare-segment-name':
+                    # the text of an empty segment is its bare name (what to_er7() of an empty segment gives)
+                    m = core.Message(name, reference=prof, version=v)
+                    setattr(m, c.name.lower(), c.name)
+                    setattr(getattr(m, c.name.lower()), r.name.lower(), 'A')
+                    f = getattr(getattr(m, c.name.lower()), r.name.lower())[0]
+                elif path == 'parse':
                     m = parser.parse_message(text, message_profile=prof)
                     f = getattr(getattr(m, c.name.lower()), r.name.lower())[0]
                 elif path == 'assign-message-text':
@@ -464,7 +500,7 @@ def floors(tier, m):
     c = m['counters']
     if c.get('structures_used', 0) < 200:
         out.append('fewer than 200 structures')
-    if set(m['seen'].get('edit_kinds', ())) != {'tighten', 'require', 'forbid', 'datatype', 'limit-two-in-group', 'require-two'}:
+    if set(m['seen'].get('edit_kinds', ())) != {'tighten', 'require', 'forbid', 'datatype', 'limit-two-in-group', 'require-two', 'require-second-occurrence'}:
         out.append('edit kinds judged: %s' % sorted(m['seen'].get('edit_kinds', ())))
     if c.get('identity_comparisons', 0) < 200 or c.get('verdict_comparisons', 0) < 200 or \
             c.get('datatype_observations', 0) < 300:
